@@ -65,6 +65,10 @@ def atoms_desc(draw, min_atoms=2, max_atoms=8, species=None, extra_arrays=True, 
             desc["constraints"].append({"kind": "FixAtoms", "indices": sorted(idx)})
         elif ck == "FixCom":
             desc["constraints"].append({"kind": "FixCom"})
+        elif ck == "Hookean":
+            # an energy-bearing constraint: atoms.get_potential_energy() includes its spring energy
+            i = draw(st.integers(0, n - 2))
+            desc["constraints"].append({"kind": "Hookean", "a1": i, "a2": i + 1, "rt": draw(fl(0.5, 2.0)), "k": draw(fl(0.5, 5.0))})
     return desc
 
 
@@ -91,6 +95,10 @@ def build_atoms(desc) -> Atoms:
             cons.append(FixAtoms(indices=list(c["indices"])))
         elif c["kind"] == "FixCom":
             cons.append(FixCom())
+        elif c["kind"] == "Hookean":
+            from ase.constraints import Hookean
+
+            cons.append(Hookean(a1=c["a1"], a2=c["a2"], rt=c["rt"], k=c["k"]))
     if cons:
         atoms.set_constraint(cons)
     return atoms
